@@ -668,7 +668,13 @@ def judge(ctx, parent, child, k, records, kind, tag, history="single"):
     if tol == 0.0:
         badm = np.nonzero(sums != gpm_o)[0]
     else:
-        badm = np.nonzero(np.abs(_f(sums) - _f(gpm_o)) > rtol_meas * _f(gpm_o))[0]
+        # thin parents: a displacement of the size of the coordinate rounding changes the measure by noise * h^(d-1),
+        # which relative to the measure is noise / altitude, not noise / h: scale by the aspect h^d / measure
+        aspect = np.maximum(1.0, _f(gp.h) ** d / np.maximum(np.abs(_f(gpm_o)), 1e-300))
+        rt = 1e-10 + (rtol_meas - 1e-10) * aspect
+        if (rt > 1e-3).any():
+            ctx.drop("children-measure:parent-thinner-than-coordinate-resolution")
+        badm = np.nonzero((np.abs(_f(sums) - _f(gpm_o)) > rt * _f(gpm_o)) & (rt <= 1e-3))[0]
     ctx.check("children-measure", badm.size == 0, mech=mk("children-measure"),
               first_bad_parent=lambda: int(badm[0]),
               ratio=lambda: float(sums[badm[0]]) / float(gpm_o[badm[0]]), **info)
@@ -1467,6 +1473,15 @@ def parent_admissible(ctx, m):
     kind = G.kind_of(m)
     P, t = vertex_part(m, kind)
     used = np.unique(t)
+    if not np.isfinite(np.asarray(m.doflocs)).all():
+        # smoothed() of a mesh with points no cell uses: 0/0 at a point without neighbours (no defect, cf. C18)
+        ctx.drop("operation-result-has-non-finite-unused-points")
+        return False
+    if cls_name(m) in SECOND_ORDER and np.unique(np.asarray(m.doflocs), axis=1).shape[1] != np.asarray(m.doflocs).shape[1]:
+        # from_mesh of a mesh with points no cell uses (one of the meshes `@` returns): the second-order mesh carries
+        # placeholder nodes for them, all at the origin - inherited by every child; not a parent for the node clauses
+        ctx.drop("second-order-parent-with-coincident-unused-nodes")
+        return False
     if np.unique(P[:, used], axis=1).shape[1] != used.size:
         ctx.drop("operation-result-has-coincident-vertices")
         return False
